@@ -122,6 +122,9 @@ struct Outcome {
     /// Poison.v `kind`
     ck: &'static str,
     err: ErrK,
+    /// snapshot taken inside the call right before the part that can fail (after preparatory writes):
+    /// `mutated` is judged against it
+    base: Option<Box<VTxnSnapshot>>,
 }
 
 /// full logical contents through the public read API
@@ -653,7 +656,7 @@ impl Gen {
         } else {
             "write"
         };
-        Outcome { label, kind: Kind::Mut, ck, err }
+        Outcome { label, kind: Kind::Mut, ck, err, base: None }
     }
 
     fn op_multimap(&mut self) -> Outcome {
@@ -701,7 +704,7 @@ impl Gen {
             Ok(Err(_)) => ErrK::Logical,
             Err(_) => ErrK::Panic,
         };
-        Outcome { label, kind: Kind::Mut, ck: "write", err }
+        Outcome { label, kind: Kind::Mut, ck: "write", err, base: None }
     }
 
     fn op_catalog(&mut self) -> Outcome {
@@ -742,7 +745,7 @@ impl Gen {
             Ok(Err(e)) => cls_table(e),
             Err(_) => ErrK::Panic,
         };
-        Outcome { label, kind: Kind::Mut, ck, err }
+        Outcome { label, kind: Kind::Mut, ck, err, base: None }
     }
 
     /// an operation whose predicate panics part-way (caught by the caller of redb)
@@ -753,6 +756,7 @@ impl Gen {
         let fill = self.r.chance(2, 3);
         let t = self.w.wtx.as_ref().unwrap();
         let mut label = String::new();
+        let mut mid: Option<Box<VTxnSnapshot>> = None;
         let res = catch(|| -> Result<(), redb::Error> {
             let mut tab = t.open_table(tdef(name))?;
             if fill {
@@ -761,6 +765,7 @@ impl Gen {
                     tab.insert(k * 3, v.as_slice())?;
                 }
             }
+            mid = Some(Box::new(t.verif_snapshot()));
             let mut seen = 0u64;
             if which < 40 {
                 label = format!("retain-panic {name} after={after_n} fill={}", u8::from(fill));
@@ -817,7 +822,7 @@ impl Gen {
             label = format!("panicking-op {name} (open failed)");
         }
         let ck = if label.starts_with("retain") { "retain" } else { "extract" };
-        Outcome { label, kind: Kind::Mut, ck, err }
+        Outcome { label, kind: Kind::Mut, ck, err, base: mid }
     }
 
     fn op_savepoint(&mut self, persistent: bool) -> Outcome {
@@ -827,15 +832,15 @@ impl Gen {
                 Ok(Ok(id)) => {
                     let rec = match catch(|| t.get_persistent_savepoint(id).map(|sp| sp.verif_record())) {
                         Ok(Ok(rec)) => rec,
-                        _ => return Outcome { label: "persistent_savepoint (record unreadable)".into(), kind: Kind::Opaque, ck: "savepoint", err: ErrK::Io },
+                        _ => return Outcome { label: "persistent_savepoint (record unreadable)".into(), kind: Kind::Opaque, ck: "savepoint", err: ErrK::Io, base: None },
                     };
                     let h = World::handle_of_savepoint(id);
                     let (pages, content) = if self.blind { (vec![], vec![]) } else { self.w.pin_pages(rec.data_root).unwrap_or_default() };
                     self.w.pins.push(Pin { handle: h, kind: PinKind::Pers(id), txn: rec.transaction_id, root: rec.data_root, pages, content, valid: true });
-                    Outcome { label: "persistent_savepoint".into(), kind: Kind::SpCreate(h, true), ck: "savepoint", err: ErrK::None }
+                    Outcome { label: "persistent_savepoint".into(), kind: Kind::SpCreate(h, true), ck: "savepoint", err: ErrK::None, base: None }
                 }
-                Ok(Err(e)) => Outcome { label: "persistent_savepoint rejected".into(), kind: Kind::Mut, ck: "savepoint", err: cls_sp(&e) },
-                Err(_) => Outcome { label: "persistent_savepoint panicked".into(), kind: Kind::Opaque, ck: "savepoint", err: ErrK::Panic },
+                Ok(Err(e)) => Outcome { label: "persistent_savepoint rejected".into(), kind: Kind::Mut, ck: "savepoint", err: cls_sp(&e), base: None },
+                Err(_) => Outcome { label: "persistent_savepoint panicked".into(), kind: Kind::Opaque, ck: "savepoint", err: ErrK::Panic, base: None },
             }
         } else {
             match catch(|| t.ephemeral_savepoint()) {
@@ -844,10 +849,10 @@ impl Gen {
                     let h = World::handle_of_savepoint(rec.id);
                     let (pages, content) = if self.blind { (vec![], vec![]) } else { self.w.pin_pages(rec.data_root).unwrap_or_default() };
                     self.w.pins.push(Pin { handle: h, kind: PinKind::Eph(sp), txn: rec.transaction_id, root: rec.data_root, pages, content, valid: true });
-                    Outcome { label: "ephemeral_savepoint".into(), kind: Kind::SpCreate(h, false), ck: "savepoint", err: ErrK::None }
+                    Outcome { label: "ephemeral_savepoint".into(), kind: Kind::SpCreate(h, false), ck: "savepoint", err: ErrK::None, base: None }
                 }
-                Ok(Err(e)) => Outcome { label: "ephemeral_savepoint rejected".into(), kind: Kind::Nop, ck: "savepoint", err: cls_sp(&e) },
-                Err(_) => Outcome { label: "ephemeral_savepoint panicked".into(), kind: Kind::Opaque, ck: "savepoint", err: ErrK::Panic },
+                Ok(Err(e)) => Outcome { label: "ephemeral_savepoint rejected".into(), kind: Kind::Nop, ck: "savepoint", err: cls_sp(&e), base: None },
+                Err(_) => Outcome { label: "ephemeral_savepoint panicked".into(), kind: Kind::Opaque, ck: "savepoint", err: ErrK::Panic, base: None },
             }
         }
     }
@@ -864,10 +869,10 @@ impl Gen {
             return None;
         }
         Some(match catch(|| t.delete_persistent_savepoint(id)) {
-            Ok(Ok(true)) => Outcome { label: format!("delete_persistent_savepoint {id}"), kind: Kind::SpDelete(h), ck: "spdelete", err: ErrK::None },
-            Ok(Ok(false)) => Outcome { label: "delete_persistent_savepoint absent".into(), kind: Kind::Mut, ck: "spdelete", err: ErrK::None },
-            Ok(Err(e)) => Outcome { label: "delete_persistent_savepoint rejected".into(), kind: Kind::Mut, ck: "spdelete", err: cls_sp(&e) },
-            Err(_) => Outcome { label: "delete_persistent_savepoint panicked".into(), kind: Kind::Opaque, ck: "spdelete", err: ErrK::Panic },
+            Ok(Ok(true)) => Outcome { label: format!("delete_persistent_savepoint {id}"), kind: Kind::SpDelete(h), ck: "spdelete", err: ErrK::None, base: None },
+            Ok(Ok(false)) => Outcome { label: "delete_persistent_savepoint absent".into(), kind: Kind::Mut, ck: "spdelete", err: ErrK::None, base: None },
+            Ok(Err(e)) => Outcome { label: "delete_persistent_savepoint rejected".into(), kind: Kind::Mut, ck: "spdelete", err: cls_sp(&e), base: None },
+            Err(_) => Outcome { label: "delete_persistent_savepoint panicked".into(), kind: Kind::Opaque, ck: "spdelete", err: ErrK::Panic, base: None },
         })
     }
 
@@ -904,14 +909,14 @@ impl Gen {
                     .map(|(id, _)| World::handle_of_savepoint(*id))
                     .collect();
                 self.dirty = true;
-                (Outcome { label: format!("restore_savepoint {spid}"), kind: Kind::Restore(h, dels), ck: "restore", err: ErrK::None }, Some(true))
+                (Outcome { label: format!("restore_savepoint {spid}"), kind: Kind::Restore(h, dels), ck: "restore", err: ErrK::None, base: None }, Some(true))
             }
             Ok(Err(e)) => {
                 let k = cls_sp(&e);
                 let clean_no = matches!(e, SavepointError::InvalidSavepoint);
-                (Outcome { label: format!("restore_savepoint {spid} rejected"), kind: Kind::Nop, ck: "restore", err: k }, if clean_no { Some(false) } else { None })
+                (Outcome { label: format!("restore_savepoint {spid} rejected"), kind: Kind::Nop, ck: "restore", err: k, base: None }, if clean_no { Some(false) } else { None })
             }
-            Err(_) => (Outcome { label: format!("restore_savepoint {spid} panicked"), kind: Kind::Opaque, ck: "restore", err: ErrK::Panic }, None),
+            Err(_) => (Outcome { label: format!("restore_savepoint {spid} panicked"), kind: Kind::Opaque, ck: "restore", err: ErrK::Panic, base: None }, None),
         }
     }
 
@@ -929,16 +934,17 @@ impl Gen {
                 kind: Kind::Nop,
                 ck: "setting",
                 err: if r.is_ok() { ErrK::None } else { ErrK::Logical },
+                base: None,
             }
         } else if x < 5 {
             let on = self.r.chance(1, 2);
             self.w.wtx.as_mut().unwrap().set_two_phase_commit(on);
-            Outcome { label: "set_two_phase_commit".into(), kind: Kind::Nop, ck: "setting", err: ErrK::None }
+            Outcome { label: "set_two_phase_commit".into(), kind: Kind::Nop, ck: "setting", err: ErrK::None, base: None }
         } else {
             let on = self.r.chance(2, 3);
             self.w.wtx.as_mut().unwrap().set_quick_repair(on);
             self.qr = on;
-            Outcome { label: "set_quick_repair".into(), kind: Kind::Nop, ck: "setting", err: ErrK::None }
+            Outcome { label: "set_quick_repair".into(), kind: Kind::Nop, ck: "setting", err: ErrK::None, base: None }
         }
     }
 
@@ -983,10 +989,14 @@ impl Gen {
 
     fn finish_call(&mut self, before: VTxnSnapshot, out: Outcome) {
         let after = self.w.wtx.as_ref().unwrap().verif_snapshot();
-        let mutated = txn_sig(&before) != txn_sig(&after);
+        let mutated = match &out.base {
+            Some(b) => txn_sig(b) != txn_sig(&after),
+            None => txn_sig(&before) != txn_sig(&after),
+        };
         // an I/O error that latched the storage layer during the call is what failed the call, whatever
         // the call reported (a predicate may panic later in the same call, Drop paths swallow errors)
         let mut out = out;
+        let mut found: Vec<String> = vec![];
         if !before.db.mem.storage_failure && after.db.mem.storage_failure {
             if out.err != ErrK::Io {
                 self.count(&format!("note_latched_during_call_reported_{}", out.err.name()));
@@ -1013,16 +1023,16 @@ impl Gen {
             // the property itself, per call: a call that failed after mutating the transaction must leave it
             // unable to commit
             if mutated && !after.poisoned && !after.db.mem.storage_failure {
-                self.violation(format!(
+                found.push(format!(
                     "C05: `{}` failed ({}) after mutating the transaction but left it neither poisoned nor latched",
                     out.label, out.err.name()
                 ));
             }
         } else if after.poisoned && !before.poisoned {
-            self.violation(format!("C05: `{}` succeeded but poisoned the transaction", out.label));
+            found.push(format!("C05: `{}` succeeded but poisoned the transaction", out.label));
         }
         if before.poisoned && !after.poisoned {
-            self.violation(format!("C05: `{}` cleared the poisoned flag", out.label));
+            found.push(format!("C05: `{}` cleared the poisoned flag", out.label));
         }
         if after.poisoned || (out.err != ErrK::None && mutated) {
             self.half = true;
@@ -1032,6 +1042,9 @@ impl Gen {
             self.dirty = true;
         }
         self.after(&out.label, out.kind);
+        for v in found {
+            self.violation(v);
+        }
     }
 
     // ------------------------------------------------------------------ savepoint validity, probed by scratch transactions
@@ -1082,6 +1095,55 @@ impl Gen {
                 return;
             }
         }
+        // directed prefix (1 round in 4): an ephemeral savepoint followed by non-durable commits, so that a
+        // restore inside the abandoned body meets unpersisted freed records, pending non-durable commits
+        // and unpersisted allocations
+        let mut restore_first: Option<u64> = None;
+        if self.r.chance(1, 4) {
+            if self.begin_write() {
+                let before = self.w.wtx.as_ref().unwrap().verif_snapshot();
+                let o = self.op_savepoint(false);
+                let created = matches!(o.kind, Kind::SpCreate(..));
+                if let Kind::SpCreate(h, _) = o.kind {
+                    restore_first = Some(h);
+                }
+                self.finish_call(before, o);
+                if !created {
+                    restore_first = None;
+                }
+                let nd = self.r.range(1, 2);
+                for i in 0..nd {
+                    if self.dead {
+                        return;
+                    }
+                    if i > 0 && !self.begin_write() {
+                        return;
+                    }
+                    {
+                        let t = self.w.wtx.as_mut().unwrap();
+                        if t.set_durability(Durability::None).is_ok() {
+                            self.immediate = false;
+                        }
+                    }
+                    self.after("set_durability none", Kind::Nop);
+                    let before = self.w.wtx.as_ref().unwrap().verif_snapshot();
+                    let o = self.op_table_write();
+                    self.finish_call(before, o);
+                    if self.dead {
+                        return;
+                    }
+                    if self.w.wtx.as_ref().unwrap().verif_snapshot().poisoned {
+                        self.failed_commit();
+                    } else {
+                        self.commit();
+                    }
+                }
+                self.count("rounds_directed_nondurable_prefix");
+            }
+            if self.dead {
+                return;
+            }
+        }
         let v0 = self.probe_validity();
         if self.dead {
             return;
@@ -1108,6 +1170,18 @@ impl Gen {
         self.body_kinds.clear();
         let nops = self.r.range(1, 9);
         let end = *self.r.pick(&[EndKind::Abort, EndKind::Abort, EndKind::Drop, EndKind::Drop, EndKind::PoisonedCommit, EndKind::PoisonedCommit]);
+        if let Some(h) = restore_first {
+            if self.r.chance(2, 3) {
+                if let Some(i) = self.w.pins.iter().position(|p| p.handle == h) {
+                    let before = self.w.wtx.as_ref().unwrap().verif_snapshot();
+                    let (o, _) = self.op_restore(i);
+                    self.finish_call(before, o);
+                    if self.dead {
+                        return;
+                    }
+                }
+            }
+        }
         for _ in 0..nops {
             self.body_call(false);
             if self.dead {
@@ -1688,7 +1762,14 @@ fn run_faulted(image: &[u8], cfg: (usize, u64), bseed: u64, body: usize, fail: O
         let snap = g.w.wtx.as_ref().unwrap().verif_snapshot();
         out.poisoned = snap.poisoned;
         out.latched = snap.db.mem.storage_failure;
-        let end = if fired_in_body || snap.poisoned {
+        // commit() is tried only when the property forbids it to succeed: some call failed after mutating the
+        // transaction, the transaction is poisoned, or the storage layer is latched.  (A backend failure that
+        // no call surfaced and that left no latch would not make a commit illegitimate.)
+        let blocked = snap.poisoned || snap.db.mem.storage_failure || g.half;
+        if fired_in_body && !blocked {
+            g.count("note_fault_fired_but_nothing_failed");
+        }
+        let end = if blocked {
             *g.r.pick(&[EndKind::PoisonedCommit, EndKind::Abort, EndKind::Drop])
         } else {
             *g.r.pick(&[EndKind::Abort, EndKind::Drop])
